@@ -17,7 +17,7 @@ TRUST_CRDT = "Trusted: the harness (log-order mini-server, generators, reference
 
 CHECKS = {
     "C01": ("exploration", "runtime monitoring: convergence oracle over seeded multi-replica histories of the real datatypes",
-            "Held on the K seeded histories reported in the evidence file: 2-4 real replicas per history, every public mutator, batches >= 11, nested and Go-native values, clocks past 10/100/1000 and near 2^32/2^53/2^62, partial deliveries in log order, forced quiescent points and continuation; at each quiescent point all replicas are compared (canonical JSON view, sizes, sweep of element reads). Exploration is the right level: the space of histories x schedules is unbounded and the oracle is exact at each quiescent point.",
+            "Held on the K seeded histories reported in the evidence file: 2-4 real replicas per history, every public mutator, batches >= 11, nested and Go-native values, clocks past 10/100/1000 and near 2^32/2^53/2^62, partial deliveries in log order, forced quiescent points and continuation, equal-clock bursts (every replica writes at the same place right after a quiescent point), committed and aborted transactions, an array-of-containers phase in a third of the document histories; at each quiescent point all replicas are compared (canonical JSON view, sizes, sweep of element reads). Exploration is the right level: the space of histories x schedules is unbounded and the oracle is exact at each quiescent point.",
             TRUST_CRDT + " The harness log reproduces the server's delivery contract (decided separately by C05/C06).",
             "DESIGN.md §4 C01"),
     "C02": ("exploration", "runtime monitoring: reference-model comparator (int32 sum, LWW by (lamport,cuid), RGA tree) computed from the emitted operations only",
@@ -78,7 +78,7 @@ CHECKS.update({
             "The complete matrix entry mode x existing datatype x other client (absent / first / racing) x point of history x type (432 cells) is executed with seeded repetitions; illegal entries must reach the error handler with an empty store diff and no transition to SUBSCRIBED, legal ones report SUBSCRIBED exactly once with a first state equal to the replay up to the response checkpoint; racing subscribe-or-create leaves exactly one datatype document; a first entry attempt aborted by the server (failing database command) must reach the error handler without SUBSCRIBED and the retry is judged like a first entry; an entry response delivered twice and a second open of a held key through the public API change nothing; a client id already recorded as subscriber that enters the key again as ANOTHER type (any mode, new DUID) is refused with unchanged store; every report of the state-change handler is truthful (starts at the state before, ends at the state the datatype is in).",
             TRUST_SVC + " The matrix is complete; histories around the cells are seeded samples.", "DESIGN.md §4 C13"),
     "C16": ("exploration", "runtime monitoring: request mutation (hostile requests) with answered/hang/panic watchdog, refused => empty store diff oracle, canary client; client half for error packs",
-            "Valid requests captured from correct clients in every state are mutated in 1-3 fields (ids, keys, types, every option-bit combination, checkpoints, operation lists, client / collection fields) plus ClientMessage / PatchMessage / CollectionMessage / EncodingMessage variants; every call must be answered (a call that returns neither response nor error is not an answer), never crash the server, and a refusal must leave the store unchanged; a canary client must still be served afterwards, and a well-formed REST patch of the key and a fresh subscriber must be answered whatever the accepted hostile requests have left stored (incl. a correctly numbered pack whose transaction header over-counts); a panic injected inside a handler goroutine must be answered, survived and must not leave the key locked; after an ACCEPTED hostile request the structural log invariants of C06 must still hold; a handler fault in one pack of a two-pack message must still be answered with both packs; clients must survive every error pack and push again after a refused push, also through the SDK's own Client.Sync() (lost response, RPC refusal, error pack: the next Sync() must return and succeed); one case in 150: a REST request that arrives while the server process shuts down gracefully (SIGTERM with a request still in progress) is answered while the shutdown is pending.",
+            "Valid requests captured from correct clients in every state are mutated in 1-3 fields (ids, keys, types, every option-bit combination, checkpoints, operation lists, client / collection fields) plus ClientMessage / PatchMessage / CollectionMessage / EncodingMessage variants; every call must be answered (a call that returns neither response nor error is not an answer), never crash the server, and a refusal must leave the store unchanged; a canary client must still be served afterwards, and a well-formed REST patch of the key and a fresh subscriber must be answered whatever the accepted hostile requests have left stored (incl. a correctly numbered pack whose transaction header over-counts); a panic injected inside a handler goroutine must be answered, survived and must not leave the key locked; after an ACCEPTED hostile request the structural log invariants of C06 must still hold; a handler fault in one pack of a two-pack message must still be answered with both packs; clients must survive every error pack and push again after a refused push, also through the SDK's own Client.Sync() (lost response, RPC refusal, error pack: the next Sync() must return and succeed); one case in five ends with valid requests unusual only in size or repetition (ONE message with 17-60 packs, 40 more registrations of one client, 20 more creations of an existing collection); one case in 150: a REST request that arrives while the server process shuts down gracefully (SIGTERM with a request still in progress) is answered while the shutdown is pending.",
             TRUST_SVC, "DESIGN.md §4 C16"),
     "C17": ("exploration", "runtime monitoring: store diff partitioned by owner after every request over several collections in a fresh store; foreign-request and reset oracles",
             "Seeded histories over 2-3 collections with overlapping keys: every request may touch only documents owned by its own collection and datatype; foreign requests must change and read nothing of the other collection; notifications caused by a sync are published on its own collection's topic with that collection's datatype id; ResetCollection removes exactly the owner's documents and leaves the rest byte-identical.",
